@@ -510,6 +510,19 @@ def run(tier, seed, replay=None):
             t = g.ty(0, 4)
             hs, ms = ty_histories(g, t, fam == "rigid")
             pool = [(l, run_ty(F, x)) for l, x in hs + ms]
+            if fam == "rigid":
+                # CROSS-CLASS twins (round 8): the plain monoidal type / cat objects with the same names
+                # meet the rigid ones — equal exactly when every winding number is 0, in both orders,
+                # with equal hashes, transitively through the other members of the pool
+                from discopy import monoidal as _mono, cat as _cat
+                try:
+                    robs = [F.ob(o) for o in t]
+                    pool.append(("plain_twin", _mono.Ty(*[o.name for o in robs])))
+                    pool.append(("plain_twin_of_base", _mono.Ty(*[_cat.Ob(o.name) for o in robs])))
+                    rep.count("ty-pools:cross_class_twins:" + ("all_z_zero" if all(o[1] == 0 for o in t)
+                                                                else "some_adjoint"))
+                except Exception as exc:  # noqa
+                    rep.fail("construction_raises:plain_twin", dict(ty=repr(t)), repr(exc)[:200])
             oracle.check("ty", fam, pool, key_ty, dict(ty=repr(t)))
             rep.count("ty-pools:" + fam)
             rep.case("ty %s %s" % (fam, tok_ty(t)), len(t) >= 2)
@@ -519,6 +532,10 @@ def run(tier, seed, replay=None):
                         ("reprty " if fam == "rigid" else "reprtym ") + tok_ty(ty_spec(x)), "ok " + repr(v))
             obs = [(l, F.ob(o)) for l, o in [("ob%d" % i, o) for i, o in enumerate(t)]
                    + [("ob_mut", (t[0][0], t[0][1] + 1) if t and fam == "rigid" else ("zz", 0))]]
+            if fam == "rigid" and t:
+                from discopy import cat as _cat
+                obs.append(("plain_ob0", _cat.Ob(obs[0][1].name)))
+                obs.append(("plain_ob_last", _cat.Ob(obs[len(t) - 1][1].name)))
             oracle.check("ob", "cat" if fam == "monoidal" else fam, obs,
                          lambda o: "O %s %d" % (exact_tok(o.name), getattr(o, "z", 0)), dict(ty=repr(t)))
             for (l, v), o in zip(obs, t):
